@@ -44,7 +44,7 @@ avars == <<call, conf, phase, started, pulled, pulling, iterRaised, submitted, b
            startedT, endedT, okT, failedT, out, stopped, closing, slices, inSlice, want, polls, availSeen, quiet, d9>>
 
 NoConf == [n |-> 0, mode |-> "list", nj |-> 1, maxb |-> 1, pre |-> 0, bound |-> 0, slack |-> 1, ticks |-> -1,
-           serial |-> TRUE]
+           serial |-> TRUE, legacy |-> FALSE]
 
 AInit ==
   /\ call = -1 /\ conf = NoConf /\ phase = "idle" /\ started = FALSE /\ pulled = 0 /\ pulling = 0
@@ -181,7 +181,10 @@ Apply(e) ==
   CASE e.ev = "CallStart" ->
          /\ call' = e.c
          /\ conf' = [n |-> e.n, mode |-> e.mode, nj |-> e.nj, maxb |-> e.maxb, pre |-> e.pre, bound |-> e.bound,
-                     slack |-> e.slack, ticks |-> e.ticks, serial |-> e.serial]
+                     slack |-> e.slack, ticks |-> e.ticks, serial |-> e.serial,
+                     \* legacy backend protocol (supports_retrieve_callback = FALSE): completion callbacks only dispatch, the
+                     \* outcome of a batch is known to joblib when the CALLER fetches it - a failed batch cannot stop dispatch earlier
+                     legacy |-> IF "legacy" \in DOMAIN e THEN e.legacy ELSE FALSE]
          /\ phase' = "running" /\ started' = FALSE /\ pulled' = 0 /\ pulling' = 0
          /\ iterRaised' = FALSE /\ submitted' = {} /\ batches' = {} /\ preB' = 0 /\ doneB' = <<>>
          /\ startedT' = {} /\ endedT' = {} /\ okT' = {} /\ failedT' = {} /\ out' = <<>>
@@ -226,7 +229,7 @@ Apply(e) ==
                         doneB, startedT, out, stopped, closing, slices, inSlice, want, polls, quiet, availSeen, d9>>
     [] e.ev = "CbEnd" ->
          /\ doneB' = IF Live(e.c) /\ e.ok /\ ~stopped THEN Append(doneB, <<e.lo, e.hi>>) ELSE doneB
-         /\ stopped' = (stopped \/ (Live(e.c) /\ ~e.ok))
+         /\ stopped' = (stopped \/ (Live(e.c) /\ ~e.ok /\ ~conf.legacy))
          /\ inSlice' = FALSE /\ quiet' = 0
          /\ UNCHANGED <<call, conf, phase, started, pulled, pulling, iterRaised, submitted, batches, preB,
                         startedT, endedT, okT, failedT, out, closing, slices, want, polls, availSeen, d9>>
